@@ -139,4 +139,10 @@ theorem tree_replace_order (ru : Nat) (t : String) (a : Attrs) (cs : List Node) 
 theorem tree_replace_elsewhere (u : Nat) (r : List Nat) (cs : List Node) (h : u ∉ ZOrder.euidsL cs) :
     ZOrder.substL u r cs = ZOrder.euidsL cs := ZOrder.substL_of_not_mem u r cs h
 
+/-- the discard passes (comments / processing instructions / metadata / foreign content) only remove: the elements that
+    remain keep their document order -/
+theorem discard_pass_keeps_order (P : Cleanup.LocalPass) (u : Nat) (t : String) (a : Attrs) (cs : List Node) :
+    (ZOrder.euids (Node.rewriteBelow P.f (.elem u t a cs))).Sublist (ZOrder.euids (.elem u t a cs)) :=
+  ZOrder.pass_keeps_order P u t a cs
+
 end PicoSVG.Props.C02
